@@ -24,6 +24,7 @@ class IdRoot(KDDataset):
         super().__init__()
         self.n, self.C, self.key, self.shapes = n, C, key, shapes
         self.label_form = "int"
+        self.unlabeled_every = 0
 
     def __len__(self):
         return self.n
@@ -35,6 +36,9 @@ class IdRoot(KDDataset):
 
     def class_of(self, idx):
         return int((int(idx) * 5 + self.key) % self.C)
+
+    def is_unlabeled(self, idx):
+        return self.unlabeled_every and int(idx) % self.unlabeled_every == 1
 
     def label_vector(self, idx):
         """what the label of sample idx means as a distribution over C classes (float32)"""
@@ -48,6 +52,8 @@ class IdRoot(KDDataset):
     def getitem_class(self, idx, ctx=None):
         # a fresh object on every call, in the form the dataset happens to store its labels in
         f = self.label_form
+        if self.is_unlabeled(idx):
+            return -1  # the library's marker for "no label" (e.g. from a semi-supervised wrapper below)
         if f == "int":
             return self.class_of(idx)
         if f == "tensor0d":
@@ -87,10 +93,13 @@ def decode(root, i, x, y, unify):
         raise Violation("label-not-a-distribution", str(y.tolist()))
     if x is not None and tuple(x.shape) != tuple(xi.shape):
         raise Violation("output-shape-differs-from-sample-shape", f"{tuple(x.shape)} vs {tuple(xi.shape)}")
-    if (x is None or torch.equal(x, xi)) and float((y - Yi).abs().max()) <= 1e-6:
+    if (x is None or float((x.double() - xi.double()).abs().max()) <= 2e-4) and float((y - Yi).abs().max()) <= 1e-6:
+        # untouched - or mixed with itself (partner j == i), which reproduces the sample up to rounding
         return "plain", None, None
     # mixed: find j and w
     for j in range(n):
+        if root.is_unlabeled(j):
+            continue
         Yj = root.label_vector(j)
         xj = root.getitem_x(j)
         if unify:
@@ -136,12 +145,24 @@ def build(spec):
         shapes = [list(base)] * n
     root = IdRoot(n, spec["C"], spec["key"], shapes)
     root.label_form = spec.get("label_form") or "int"
+    if root.label_form == "int" and spec.get("unlabeled"):
+        root.unlabeled_every = spec["unlabeled"]
     try:
         seed = spec["seed"]
         if seed is not None and spec.get("seed_form") == "numpy":
             seed = np.int64(seed)  # a seed taken from an array of seeds
-        ds = KDMixWrapper(root, mixup_p=spec["p"], mixup_alpha=spec["alpha"], seed=seed,
-                          mixup_unify_shapes_mode="pad_or_cut_end" if spec["unify"] else None)
+        unify_mode = "pad_or_cut_end" if spec["unify"] else None
+        extra = {}
+        if spec.get("cutmix_p"):
+            # cutmix is configured next to mixup: its draws are refused (NotImplementedError), every other draw behaves as without it
+            extra = dict(cutmix_p=spec["cutmix_p"], cutmix_alpha=1.0)
+        if spec.get("reassign_unify"):
+            # the wrapper is re-configured after construction (public attribute): the mode that is set when a sample is requested counts
+            ds = KDMixWrapper(root, mixup_p=spec["p"], mixup_alpha=spec["alpha"], seed=seed,
+                              mixup_unify_shapes_mode=None if unify_mode else "pad_or_cut_end", **extra)
+            ds.mixup_unify_shapes_mode = unify_mode
+        else:
+            ds = KDMixWrapper(root, mixup_p=spec["p"], mixup_alpha=spec["alpha"], seed=seed, mixup_unify_shapes_mode=unify_mode, **extra)
     except AssertionError:
         raise Refused("constructor assertion")
     return root, ds
@@ -173,7 +194,19 @@ def _check(spec):
         seen = {}
         for form in forms:
             mw = ModeWrapper(ds, mode=form)
-            got = mw[i]
+            try:
+                got = mw[i]
+            except NotImplementedError:
+                if spec.get("cutmix_p"):
+                    continue  # a cutmix draw: refused, as documented
+                raise
+            except Exception:
+                if root.unlabeled_every:
+                    continue  # an unlabeled sample (or partner) cannot be given a label vector: refused by the library (whatever is requested)
+                raise
+            if root.is_unlabeled(i) and "class" in form.split(" "):
+                raise Violation("unlabeled-sample-answered-with-a-class-label", f"index {i} has no label (-1) but the request '{form}' returned "
+                                                                                f"{[round(float(v), 3) for v in (got[form.split(' ').index('class')] if isinstance(got, tuple) else got).flatten().tolist()][:10]}")
             items = dict(zip(form.split(" "), got if isinstance(got, tuple) else (got,)))
             if "index" in items and items["index"] != i:
                 raise Violation("index-item-changed", "")
@@ -203,16 +236,25 @@ def _check(spec):
 
 def check_p1(spec):
     """probability one mixes every sample: over n>=32 distinct samples at most half may look untouched"""
-    root, ds = build(dict(spec, p=1.0, unify=False))
+    # mixup_p = 1, or mixup_p + cutmix_p = 1 (cutmix draws are refused, every other draw must mix)
+    cp = spec.get("cutmix_p")
+    root, ds = build(dict(spec, p=1.0 - cp if cp else 1.0, unify=False, unlabeled=0, reassign_unify=False))
     n = spec["n"]
     untouched = 0
+    answered = 0
     for i in range(n):
-        x, y = ds.getitem_xclass(i)
+        try:
+            x, y = ds.getitem_xclass(i)
+        except NotImplementedError:
+            if spec.get("cutmix_p"):
+                continue
+            raise
+        answered += 1
         kind, j, w = decode(root, i, x, y, False)
         if kind == "plain":
             untouched += 1
-    if untouched > n // 2:
-        raise Violation("probability-one-does-not-mix", f"{untouched} of {n} samples untouched with mixup_p=1")
+    if untouched > max(answered // 2, 2):
+        raise Violation("probability-one-does-not-mix", f"{untouched} of {answered} answered samples untouched although the probabilities sum to one")
     return Case(True, ["seeded" if spec["seed"] is not None else "unseeded"], n)
 
 
@@ -241,6 +283,8 @@ def spec_s(draw, big=False):
             "label_form": draw(st.sampled_from(["int", "int", "int", "tensor0d", "onehot_int64", "soft_float64", "soft_float32"])),
             "default_dtype": draw(st.sampled_from([None, None, None, "float64"])),
             "C2": draw(st.sampled_from([None, None, None, 2, 3, 7, 10])),
+            "cutmix_p": draw(st.sampled_from([None, None, 0.5, 0.25])), "reassign_unify": draw(st.booleans()),
+            "unlabeled": draw(st.sampled_from([0, 0, 3, 4])),
             "idx": draw(st.lists(st.integers(0, 100), min_size=1, max_size=6)),
             "forms": draw(st.lists(st.sampled_from(FORMS), min_size=1, max_size=5, unique=True))}
 
